@@ -136,6 +136,12 @@ pub struct FmtSettings {
 
 fn array_node_to_formula_value(node: ArrayNode) -> FormulaValue {
     match node {
+        // same safety belt as the scalar path: a cell never stores NaN or an infinite number
+        ArrayNode::Number(n) if !n.is_finite() => FormulaValue::Error {
+            ei: Error::NUM,
+            o: String::new(),
+            m: String::new(),
+        },
         ArrayNode::Boolean(b) => FormulaValue::Boolean(b),
         ArrayNode::Number(n) => FormulaValue::Number(n),
         ArrayNode::String(s) => FormulaValue::Text(s),
@@ -150,6 +156,7 @@ fn array_node_to_formula_value(node: ArrayNode) -> FormulaValue {
 
 fn array_node_to_spill_value(node: ArrayNode) -> SpillValue {
     match node {
+        ArrayNode::Number(n) if !n.is_finite() => SpillValue::Error(Error::NUM),
         ArrayNode::Boolean(b) => SpillValue::Boolean(b),
         ArrayNode::Number(n) => SpillValue::Number(n),
         ArrayNode::String(s) => SpillValue::Text(s),
@@ -1598,6 +1605,9 @@ impl<'a> Model<'a> {
                             )
                         } else {
                             match a[0][0] {
+                                ArrayNode::Number(n) if !n.is_finite() => {
+                                    CalcResult::new_error(Error::NUM, cell_reference, "".to_string())
+                                }
                                 ArrayNode::Number(n) => CalcResult::Number(n),
                                 ArrayNode::Boolean(b) => CalcResult::Boolean(b),
                                 ArrayNode::String(ref s) => CalcResult::String(s.clone()),
